@@ -107,8 +107,87 @@ func withReversedAttrs(jobs []opJob) []opJob {
 	return out
 }
 
+// explicitDefaults: attributes an ONNX node may spell out with their default value; nd = number of spatial axes (Conv).
+func explicitDefaults(op string, nd int) []hx.Attr {
+	ones := func(n int, v int64) []int64 {
+		o := make([]int64, n)
+		for i := range o {
+			o[i] = v
+		}
+		return o
+	}
+	switch op {
+	case "Gemm":
+		return []hx.Attr{hx.AFloat("alpha", 1), hx.AFloat("beta", 1), hx.AInt("transA", 0), hx.AInt("transB", 0)}
+	case "Conv":
+		return []hx.Attr{hx.AInt("group", 1), hx.AStr("auto_pad", "NOTSET"), hx.AInts("dilations", ones(nd, 1)...), hx.AInts("strides", ones(nd, 1)...), hx.AInts("pads", ones(2*nd, 0)...)}
+	case "Softmax", "LogSoftmax":
+		return []hx.Attr{hx.AInt("axis", -1)}
+	case "ArgMax":
+		return []hx.Attr{hx.AInt("axis", 0), hx.AInt("keepdims", 1), hx.AInt("select_last_index", 0)}
+	case "ReduceMax", "ReduceMin":
+		return []hx.Attr{hx.AInt("keepdims", 1)}
+	case "Flatten":
+		return []hx.Attr{hx.AInt("axis", 1)}
+	case "Gather":
+		return []hx.Attr{hx.AInt("axis", 0)}
+	case "GRU":
+		return []hx.Attr{hx.AInt("linear_before_reset", 0), hx.AStr("direction", "forward")}
+	case "LSTM":
+		return []hx.Attr{hx.AInt("input_forget", 0), hx.AStr("direction", "forward")}
+	case "RNN":
+		return []hx.Attr{hx.AStr("direction", "forward")}
+	}
+	return nil
+}
+
+// withExplicitDefaults: every job whose node leaves defaultable attributes out is also run with ALL of them spelled
+// out with their default values (a node may do so); the expectation is the same. (Where the explicit spelling of one
+// attribute conflicts with one the job sets - auto_pad next to pads - that attribute is left out.)
+func withExplicitDefaults(jobs []opJob) []opJob {
+	out := jobs
+	for i := range jobs {
+		j := jobs[i]
+		nd := 0
+		if j.oc.Op == "Conv" && len(j.oc.Inputs) > 0 && j.oc.Inputs[0] != nil {
+			nd = len(j.oc.Inputs[0].Shape) - 2
+			if nd < 1 {
+				continue
+			}
+		}
+		defs := explicitDefaults(j.oc.Op, nd)
+		if defs == nil {
+			continue
+		}
+		have := map[string]bool{}
+		for _, a := range j.oc.Attrs {
+			have[a.Name] = true
+		}
+		var add []hx.Attr
+		for _, d := range defs {
+			if have[d.Name] {
+				continue
+			}
+			if j.oc.Op == "Conv" && ((d.Name == "pads" && have["auto_pad"]) || (d.Name == "auto_pad" && false)) {
+				continue // pads next to an auto_pad mode other than NOTSET is not a valid node
+			}
+			add = append(add, d)
+		}
+		if len(add) == 0 {
+			continue
+		}
+		oc := *j.oc
+		oc.Attrs = append(append([]hx.Attr{}, j.oc.Attrs...), add...)
+		j.oc = &oc
+		j.id += "/defaults-spelled-out"
+		j.tags = append(append([]string{}, j.tags...), "defaults-spelled-out")
+		out = append(out, j)
+	}
+	return out
+}
+
 func runOpJobs(c *hx.Checker, jobs []opJob) {
-	jobs = withReversedAttrs(filterJobs(jobs))
+	jobs = withReversedAttrs(withExplicitDefaults(filterJobs(jobs)))
 	c.ParallelFor(len(jobs), func(i int) {
 		j := &jobs[i]
 		sample := map[string]any{"id": j.id, "domain": j.dom}
@@ -162,7 +241,7 @@ func jobSig(j *opJob) string {
 			b.WriteString("|-")
 			continue
 		}
-		fmt.Fprintf(&b, "|%d:%d", in.DT, len(in.Shape))
+		fmt.Fprintf(&b, "|%s:%d", in.DT, len(in.Shape))
 	}
 	return b.String()
 }
@@ -268,7 +347,7 @@ func runReuseJobs(c *hx.Checker, jobs []opJob) {
 				if in == nil {
 					sig += "|-"
 				} else {
-					sig += fmt.Sprintf("|%d%v", in.DT, in.Shape)
+					sig += fmt.Sprintf("|%s%v", in.DT, in.Shape)
 				}
 			}
 			if p, ok := lastSig[sig]; ok {
